@@ -621,10 +621,15 @@ Definition orooting_eqb (a b : option bool) : bool := option_eqb Bool.eqb a b.
 
 (* add_tree (index=None) *)
 Definition ta_add_tree (forwards : bool) (c : config) (a : ta) (t : tree_in) : res ta :=
+  (* rooting = tree.is_rooted; None -> False when the working tree does so (Gen/Consts) *)
+  let tr := match t_rooting t with
+            | None => if treearray_none_rooting_is_unrooted then Some false else None
+            | x => x
+            end in
   (* validate_rooting *)
   let r := match ta_rooting a with
-           | None => Ok (t_rooting t)
-           | Some b => if orooting_eqb (Some b) (t_rooting t) then Ok (Some b) else Err ValueErr
+           | None => Ok tr
+           | Some b => if orooting_eqb (Some b) tr then Ok (Some b) else Err ValueErr
            end in
   match r with
   | Ok r' =>
